@@ -1,5 +1,5 @@
 (* C02 - packet framing: ordered, exactly once, isolated, terminating.  Statements only. *)
-From RU Require Import Base Types Defs BitReader World Run FrameProofs RunProofs WorldProofs.
+From RU Require Import Base Types Defs BitReader World Run FrameProofs RunProofs WorldProofs Layout LayoutProofs LayoutRoundTrip.
 
 (* every packet (payload < 2^32 bytes, any 32-bit type id, any timestamp bits) exactly once, in stream order, with
    exactly its type, timestamp and payload; the stream then ends cleanly *)
@@ -59,3 +59,23 @@ Print Assumptions C02_ignored_mapped_is_noop.
    it has no access to the stream.  That the implementation has the same shape (a private BytesIO per payload) is what
    the correspondence check establishes with payloads shorter than their handler's struct (a handler that could read on
    into the next header would not fail there). *)
+
+(* "exactly its payload", one level down: the header fields of a packet.  For ANY layout term (so for every row of the translated table, whatever
+   the translator produces), any field values that fit their fields and any bytes behind a layout that does not end in "everything that is left",
+   the generic parser returns exactly the values that were encoded ... *)
+Theorem C02_header_round_trip : forall l vs tail,
+  vals_ok l vs -> (ends_with_rest l = true -> tail = []%list) ->
+  parse_layout l (enc_layout l vs ++ tail)%list = Ok vs.
+Proof. exact parse_enc_layout. Qed.
+Print Assumptions C02_header_round_trip.
+(* ... and so the model's step function hands every packet class's handler exactly the header fields that were written *)
+Theorem C02_step_on_encoded_header : forall St w c L vs tail,
+  class_layout (s_game St) c = Some L -> vals_ok L vs -> (ends_with_rest L = true -> tail = []%list) ->
+  step_class St w c (enc_layout L vs ++ tail)%list = handle St w c vs.
+Proof. exact step_class_on_encoded. Qed.
+Print Assumptions C02_step_on_encoded_header.
+(* inhabited: a three-field layout (signed 4, unsigned 2, length-prefixed blob) with values that fit *)
+Example C02_example_header : vals_ok [KS 4; KU 2; KBin] [LZ (-5)%Z; LN 513%N; LB [x01; x02; x03]]
+  /\ parse_layout [KS 4; KU 2; KBin] (enc_layout [KS 4; KU 2; KBin] [LZ (-5)%Z; LN 513%N; LB [x01; x02; x03]] ++ [x09])%list
+     = Ok [LZ (-5)%Z; LN 513%N; LB [x01; x02; x03]].
+Proof. exact example_header. Qed.
